@@ -154,8 +154,14 @@ impl<'a> MessageParser<'a> {
         let checkpoint = self.checkpoint(&full_tag);
         let field_content = self.extract_field(&full_tag, false)?;
 
-        // Use parse_with_variant for enum fields
-        match T::parse_with_variant(&field_content, Some(&variant), Some(base_tag)) {
+        // Use parse_with_variant for enum fields. A tag without option letter names the
+        // no-letter option: no letter is passed on
+        let letter = if variant.is_empty() {
+            None
+        } else {
+            Some(variant.as_str())
+        };
+        match T::parse_with_variant(&field_content, letter, Some(base_tag)) {
             Ok(parsed) => Ok(parsed),
             Err(e) => {
                 self.rewind(checkpoint, &full_tag);
@@ -183,7 +189,13 @@ impl<'a> MessageParser<'a> {
                 let full_tag = format!("{}{}", base_tag, variant);
                 let checkpoint = self.checkpoint(&full_tag);
                 if let Ok(content) = self.extract_field(&full_tag, true) {
-                    match T::parse_with_variant(&content, Some(&variant), Some(base_tag)) {
+                    // A tag without option letter names the no-letter option
+                    let letter = if variant.is_empty() {
+                        None
+                    } else {
+                        Some(variant.as_str())
+                    };
+                    match T::parse_with_variant(&content, letter, Some(base_tag)) {
                         Ok(parsed) => Ok(Some(parsed)),
                         Err(e) => {
                             self.rewind(checkpoint, &full_tag);
